@@ -9,6 +9,8 @@ import (
 	"regexp"
 	"sort"
 	"strings"
+
+	"github.com/coreruleset/crs-toolchain/v2/utils"
 )
 
 type inclusionLine struct {
@@ -61,7 +63,7 @@ func replaceSuffixes(inputLines *bytes.Buffer, suffixReplacements []suffixReplac
 	}
 
 	var sb strings.Builder
-	scanner := bufio.NewScanner(inputLines)
+	scanner := utils.NewLineScanner(inputLines)
 	scanner.Split(bufio.ScanLines)
 	skipRegex := regexp.MustCompile(`^(?:##!|\s*$)`)
 	for scanner.Scan() {
@@ -85,7 +87,7 @@ func removeExclusions(parser *Parser, excludeFileNames []string, includeMap map[
 	for _, fileName := range excludeFileNames {
 		logger.Debug().Msgf("Processing exclusions from %s", fileName)
 		excludeContent, _ := parseFile(parser, fileName, definitions)
-		scanner := bufio.NewScanner(excludeContent)
+		scanner := utils.NewLineScanner(excludeContent)
 		scanner.Split(bufio.ScanLines)
 		for scanner.Scan() {
 			exclusion := scanner.Text()
@@ -97,7 +99,7 @@ func removeExclusions(parser *Parser, excludeFileNames []string, includeMap map[
 
 func buildinclusionLineMap(parser *Parser, includeFileName string) (inclusionLineMap, map[string]string) {
 	includeContent, definitions := parseFile(parser, includeFileName, nil)
-	includeScanner := bufio.NewScanner(includeContent)
+	includeScanner := utils.NewLineScanner(includeContent)
 	includeScanner.Split(bufio.ScanLines)
 	includeMap := make(inclusionLineMap, 100)
 	index := 0
